@@ -86,7 +86,13 @@ Extract(i) ==
     ELSE IF i.proto = "https"
     THEN LET fp == FromPath(i.path) IN
          IF fp.k = "cont" THEN FromName(i.host, i.cli, i.strict)
-         ELSE IF fp.k = "id" /\ i.strict /\ Foreign(i.host, i.cli)
+         ELSE IF fp.k = "id" /\ i.strict
+                 /\ (\/ Foreign(i.host, i.cli)
+                     \* ... or the connection is a TLS one whose server name by
+                     \* itself would be an error (a label that is no host-name
+                     \* label, no name at all): the TLS layer may refuse such a
+                     \* name in the handshake before any path is seen.
+                     \/ (i.via = "sni" /\ i.host # <<>> /\ Err \in FromName(i.host, i.cli, TRUE)))
               \* PathWins: the path carries a well-formed id and the server
               \* name is foreign under strict checking.  The statement demands
               \* both "id from the path" and "foreign name rejected"; the TLS
